@@ -62,6 +62,11 @@ m("c18-dgnss-collect-all-configs", S + "dgnss_broadcast_binary_message.rs", "   
 m("c05-extend-inside-debug-assert", SS, "        self.data\n            .extend_from_slice(&ais_sentence.data)\n            .map_err(|_| Error::from(\"Vec is full on extend_from_slice\"))?;\n", "        {\n            if ais_sentence.data.len() + self.data.len() > self.data.capacity() {\n                return Err(Error::from(\"Vec is full on extend_from_slice\"));\n            }\n            debug_assert!(self.data.extend_from_slice(&ais_sentence.data).is_ok());\n        }\n", ["C05", "C18"])
 m("c05-alloc-extend-inside-debug-assert", SS, "        self.data.extend_from_slice(&ais_sentence.data);\n", "        debug_assert!({ self.data.extend_from_slice(&ais_sentence.data); true });\n", ["C05", "C06"])
 n("n-c05-pure-debug-assert", SS, "        // Only a fragment whose payload has been stored advances the group\n", "        debug_assert!(ais_sentence.num_fragments != 1 || ais_sentence.fragment_number <= 255);\n", ["C05", "C06", "C17", "C01", "C18"])
+n("n-c20-manual-debug-rot", S + "navigation.rs", "#[derive(Debug, Copy, Clone, PartialEq, Eq)]\npub struct RateOfTurn {\n    raw: i8,\n}\n", "#[derive(Copy, Clone, PartialEq, Eq)]\npub struct RateOfTurn {\n    raw: i8,\n}\n\nimpl core::fmt::Debug for RateOfTurn {\n    fn fmt(&self, f: &mut core::fmt::Formatter<'_>) -> core::fmt::Result {\n        f.debug_struct(\"RateOfTurn\").field(\"raw\", &self.raw).finish()\n    }\n}\n", ["C20", "C01", "C10"])
+m("c20-manual-debug-rot-unwrap", S + "navigation.rs", "#[derive(Debug, Copy, Clone, PartialEq, Eq)]\npub struct RateOfTurn {\n    raw: i8,\n}\n", "#[derive(Copy, Clone, PartialEq, Eq)]\npub struct RateOfTurn {\n    raw: i8,\n}\n\nimpl core::fmt::Debug for RateOfTurn {\n    fn fmt(&self, f: &mut core::fmt::Formatter<'_>) -> core::fmt::Result {\n        f.debug_struct(\"RateOfTurn\").field(\"raw\", &self.raw).field(\"rate\", &self.rate().unwrap()).finish()\n    }\n}\n", ["C20"])
+m("c12-shiptype-eq-by-discriminant", S + "types.rs", "#[derive(Debug, PartialEq, Eq, Copy, Clone)]\npub enum ShipType {", "impl PartialEq for ShipType {\n    fn eq(&self, other: &Self) -> bool {\n        core::mem::discriminant(self) == core::mem::discriminant(other)\n    }\n}\n\n#[derive(Debug, Eq, Copy, Clone)]\npub enum ShipType {", ["C12"])
+n("n-c15-dgnss-header-by-bytes", S + "dgnss_broadcast_binary_message.rs", "        let (data, message_type) = take_bits(6u8)(data)?;\n        let (data, station_id) = take_bits(10u8)(data)?;\n", "        let (data, b0) = take_bits::<_, u8, _, _>(8u8)(data)?;\n        let (data, b1) = take_bits::<_, u8, _, _>(8u8)(data)?;\n        let message_type = b0 >> 2;\n        let station_id = (u16::from(b0) & 0x03) << 8 | u16::from(b1);\n", ["C15", "C04", "C01", "C18"])
+m("c15-dgnss-header-by-bytes-precedence", S + "dgnss_broadcast_binary_message.rs", "        let (data, message_type) = take_bits(6u8)(data)?;\n        let (data, station_id) = take_bits(10u8)(data)?;\n", "        let (data, b0) = take_bits::<_, u8, _, _>(8u8)(data)?;\n        let (data, b1) = take_bits::<_, u8, _, _>(8u8)(data)?;\n        let message_type = b0 >> 2;\n        let station_id = u16::from(b0) & 0x03 << 8 | u16::from(b1);\n", ["C15", "C04"])
 m("c12-reverse-54-55", S + "types.rs", "AntiPollutionEquipment => 54,", "AntiPollutionEquipment => 55,", ["C12"])
 m("c12-epfd-15", S + "types.rs", "            15 => None,\n            _ => Some(Self::Unknown(data)),", "            _ => Some(Self::Unknown(data)),", ["C12"])
 m("c12-navaid-swap", S + "aid_to_navigation_report.rs", "9 => Some(Self::BeaconCardinalN),\n            10 => Some(Self::BeaconCardinalE),", "9 => Some(Self::BeaconCardinalE),\n            10 => Some(Self::BeaconCardinalN),", ["C12"])
